@@ -101,6 +101,11 @@ func (c *clientHello) marshal(aad bool) ([]byte, error) {
 					b.AddUint16LengthPrefixed(func(b *cryptobyte.Builder) {
 						if aad && ext.Type == 0xfe0d {
 							n := len(ext.Data) - len(c.echExt.Payload)
+							if n < 0 {
+								// Only possible when the extension is duplicated.
+								b.SetError(fmt.Errorf("%w: malformed encrypted_client_hello", ErrIllegalParameter))
+								return
+							}
 							b.AddBytes(ext.Data[:n])
 							b.AddBytes(make([]byte, len(ext.Data[n:])))
 							return
